@@ -82,6 +82,38 @@ protected:
     }
 };
 
+// {urn:verif:c16}boom(x): a key expression that raises a run-time error the moment it is evaluated
+class FunctionBoom : public Function
+{
+public:
+    virtual XObjectPtr
+    execute(
+            XPathExecutionContext&          executionContext,
+            XalanNode*                      context,
+            const XObjectArgVectorType&     /* args */,
+            const Locator*                  locator) const
+    {
+        generalError(executionContext, context, locator);
+        return XObjectPtr();
+    }
+
+    using Function::execute;
+
+    virtual FunctionBoom*
+    clone(MemoryManager& theManager) const
+    {
+        return XalanCopyConstruct(theManager, *this);
+    }
+
+protected:
+    const XalanDOMString&
+    getError(XalanDOMString& theResult) const
+    {
+        theResult.assign("boom() was evaluated");
+        return theResult;
+    }
+};
+
 static bool unhex(const std::string& h, std::string& out)
 {
     if (h.size() % 2) return false;
@@ -114,6 +146,7 @@ int main()
     {
         XalanTransformer transformer;
         transformer.installExternalFunction(XalanDOMString("urn:verif:c16"), XalanDOMString("probe"), FunctionProbe());
+        transformer.installExternalFunction(XalanDOMString("urn:verif:c16"), XalanDOMString("boom"), FunctionBoom());
         std::ostringstream warnings;
         transformer.setWarningStream(&warnings);
 
